@@ -170,7 +170,11 @@ def run(ck):
             srcs.append((p, v))
         if same:
             ck.count('equal_voltages')
-        m.compute()
+        try:
+            m.compute()
+        except Exception as e:
+            dis.append(dict(ant=ant, srcs=srcs, why='compute raised %s: %s' % (type(e).__name__, e)))
+            continue
         kinds = set()
         for p in set(ps):
             pu = m.pulses[p]
@@ -228,13 +232,23 @@ def run(ck):
                        'IEEE rounding of complex products differs between numpy and the model in the last bits (rtol 1e-12)']
     if dis or ck.broken:
         found = False
-        for dg in dis[:30]:
-            bad = property_on_impl(dg['ant'], dg['srcs'], complex(0.3, -2.0))
+        raised = None
+        for dg in dis[:60]:
+            try:
+                bad = property_on_impl(dg['ant'], dg['srcs'], complex(0.3, -2.0))
+            except Exception as e:
+                raised = raised or (dg, 'the sources cannot be solved: %s: %s' % (type(e).__name__, e))
+                continue
             if bad:
                 ck.violation(dict(kind='linearity', ant=dg['ant'], srcs=[(p, [v.real, v.imag]) for p, v in dg['srcs']],
                                   c=[0.3, -2.0], observed=bad, disagreement=dg['why']))
                 found = True
                 break
+        if not found and raised:
+            dg, msg = raised
+            ck.violation(dict(kind='linearity', ant=dg['ant'], srcs=[(p, [v.real, v.imag]) for p, v in dg['srcs']],
+                              c=[0.3, -2.0], observed=msg, disagreement=dg['why']))
+            found = True
         if not found:
             ck.violation(dict(kind='broken-tie', detail=dict(broken=ck.broken, disagreements=[x['why'] for x in dis[:5]],
                                                              example=dis[0]['ant'] if dis else None),
